@@ -763,11 +763,18 @@ def gen_illegal(rng, cfg):
                 {'op': 'supp', 'amb': 'F', 'scen': None, 'set': [['<=', ['norm', ['v', 'z'], 'inf'], ['c', 1.0]]]},
                 {'op': 'adapt', 'tgt': rng.choice([['v', 'y'], ['i', ['v', 'y'], [0, 2]]]), 'to': rng.choice([zsel('z', [0]), ['v', 'z']])}]
         yv, xv = ['v', 'y'], ['v', 'x']
+        y0, y1 = ['i', yv, 0], ['i', yv, 1]
+        if rng.random() < cfg.get('p_stale_slice', 0.3):
+            # the slice / element objects that enter the product were created BEFORE the adaptation was declared
+            ad_ = ops.pop()
+            ops += [{'op': 'expr', 'id': 'ysl', 'e': ['i', yv, [0, 2]]}, {'op': 'expr', 'id': 'ys0', 'e': ['i', yv, 0]},
+                    {'op': 'expr', 'id': 'ys1', 'e': ['i', yv, 1]}, ad_]
+            yv, y0, y1 = ['v', 'ysl'], ['v', 'ys0'], ['v', 'ys1']
         vec = {'y': yv, 'y+x': ['+', yv, xv], 'x+y': ['+', xv, yv], 'y-x': ['-', yv, xv], 'x-y': ['-', xv, yv],
                '2y+x0': ['+', ['*', ['c', 2.0], yv], ['i', xv, 0]], 'y+c': ['+', yv, ['c', [1.0, -0.5]]], '-y': ['neg', yv],
                'y*2': ['*', yv, ['c', 2.0]], '(y+x)-x': ['-', ['+', yv, xv], xv]}
-        sca = {'y0': ['i', yv, 0], 'y0+x0': ['+', ['i', yv, 0], ['i', xv, 0]], 'y1-x0': ['-', ['i', yv, 1], ['i', xv, 0]],
-               'x1+y0': ['+', ['i', xv, 1], ['i', yv, 0]], 'sum(y)+x0': ['+', ['sum', yv], ['i', xv, 0]]}
+        sca = {'y0': y0, 'y0+x0': ['+', y0, ['i', xv, 0]], 'y1-x0': ['-', y1, ['i', xv, 0]],
+               'x1+y0': ['+', ['i', xv, 1], y0], 'sum(y)+x0': ['+', ['sum', yv], ['i', xv, 0]]}
         z2, z0 = ['i', ['v', 'z'], [0, 2]], ['i', ['v', 'z'], 0]
         form = rng.randrange(6)
         if form == 0:
